@@ -20,6 +20,9 @@ use std::task::{Context, Poll, Waker};
 pub enum PStep {
     Register,
     Check,
+    /// first poll only: wake the task's own waker (`cx.waker().wake_by_ref()` if true, else
+    /// `cx.waker().clone().wake()`) and return Pending at once - a "yield once" future
+    YieldOnce(bool),
 }
 
 #[derive(Clone, Copy, Debug, PartialEq, Eq, Hash, Serialize, Deserialize, PartialOrd, Ord)]
@@ -82,6 +85,8 @@ struct FS {
     slot: u8,
     notified: bool,
     credit: bool,
+    /// the first poll has run its YieldOnce step
+    yielded: bool,
     main: MainSt,
     w: Vec<usize>,
     held: Vec<u8>,
@@ -96,7 +101,7 @@ pub struct FutRef {
 }
 
 pub fn reference(spec: &FutSpec) -> FutRef {
-    let init = FS { flag: false, slot: if spec.prior { 1 } else { 0 }, notified: false, credit: true, main: MainSt::Polling(0), w: vec![0; spec.wakers.len()], held: vec![if spec.handoff { 2 } else { 0 }; spec.wakers.len()] };
+    let init = FS { flag: false, slot: if spec.prior { 1 } else { 0 }, notified: false, credit: true, yielded: false, main: MainSt::Polling(0), w: vec![0; spec.wakers.len()], held: vec![if spec.handoff { 2 } else { 0 }; spec.wakers.len()] };
     let mut seen: HashSet<FS> = HashSet::new();
     let mut stack = vec![(init.clone(), vec![])];
     seen.insert(init);
@@ -115,6 +120,15 @@ pub fn reference(spec: &FutSpec) -> FutRef {
                     PStep::Check => {
                         if s.flag {
                             n.main = MainSt::Done;
+                        } else {
+                            n.main = if i + 1 == spec.poll.len() { MainSt::Waiting } else { MainSt::Polling(i + 1) };
+                        }
+                    }
+                    PStep::YieldOnce(_) => {
+                        if !s.yielded {
+                            n.yielded = true;
+                            n.notified = true;
+                            n.main = MainSt::Waiting;
                         } else {
                             n.main = if i + 1 == spec.poll.len() { MainSt::Waiting } else { MainSt::Polling(i + 1) };
                         }
@@ -215,6 +229,7 @@ struct Shared {
     aw: loom::future::AtomicWaker,
     spec: FutSpec,
     polls: std::sync::atomic::AtomicUsize,
+    yielded: std::sync::atomic::AtomicBool,
     /// join handles of waker threads spawned by the first poll (handoff)
     spawned: Mutex<Vec<loom::thread::JoinHandle<()>>>,
 }
@@ -254,6 +269,16 @@ impl Future for Fut {
                 PStep::Check => {
                     if sh.flag.load(flag_orders(sh).1) {
                         return Poll::Ready(7);
+                    }
+                }
+                PStep::YieldOnce(by_ref) => {
+                    if !sh.yielded.swap(true, std::sync::atomic::Ordering::SeqCst) {
+                        if *by_ref {
+                            cx.waker().wake_by_ref();
+                        } else {
+                            cx.waker().clone().wake();
+                        }
+                        return Poll::Pending;
                     }
                 }
             }
@@ -364,6 +389,7 @@ pub fn run_subject(spec: &FutSpec, iter_cap: usize) -> FutObs {
                 spec: spec2.clone(),
                 polls: std::sync::atomic::AtomicUsize::new(0),
                 spawned: Mutex::new(vec![]),
+                yielded: std::sync::atomic::AtomicBool::new(false),
             });
             if spec2.prior {
                 // an earlier task registers and completes at once
@@ -443,7 +469,8 @@ pub fn eval(job: &Job) -> JobResult {
         res.violations.push(Viol { kind: "wrong_output".into(), detail: format!("{:?}", o.outputs), expected: "[7]".into(), observed: String::new(), witness: json!({}) });
     }
     // re-polls only after a wake (each wake step, each contended registration) or the one spurious return
-    let bound = 2 + wake_steps * (1 + registers) + if spec.atomic_waker { wake_steps * registers * 2 } else { 0 };
+    let yields = spec.poll.iter().filter(|s| matches!(s, PStep::YieldOnce(_))).count();
+    let bound = 2 + yields + wake_steps * (1 + registers) + if spec.atomic_waker { wake_steps * registers * 2 } else { 0 };
     if o.max_polls > bound {
         res.violations.push(Viol { kind: "too_many_polls".into(), detail: format!("{} > {}", o.max_polls, bound), expected: "re-polls only after a wake or the one spurious return".into(), observed: String::new(), witness: json!({}) });
     }
@@ -457,7 +484,15 @@ pub fn eval(job: &Job) -> JobResult {
 pub fn specs(tier: &str) -> Vec<FutSpec> {
     use PStep::*;
     use WStep::*;
-    let polls: Vec<Vec<PStep>> = vec![vec![Register, Check], vec![Check, Register], vec![Check, Register, Check], vec![Check]];
+    let polls: Vec<Vec<PStep>> = vec![
+        vec![Register, Check],
+        vec![Check, Register],
+        vec![Check, Register, Check],
+        vec![Check],
+        vec![YieldOnce(true), Register, Check],
+        vec![Register, YieldOnce(true), Check],
+        vec![YieldOnce(false), Register, Check],
+    ];
     let alpha = [SetFlag, Wake, WakeByRef, CloneWaker, WakeHeld, DropHeld];
     let maxlen = if tier == "quick" { 2 } else { 3 };
     let mut scripts: Vec<Vec<WStep>> = vec![];
@@ -540,7 +575,7 @@ pub fn specs(tier: &str) -> Vec<FutSpec> {
         hscripts.extend(nxt.iter().cloned());
         cur = nxt;
     }
-    for p in [vec![Check], vec![Register, Check], vec![Check, Register, Check]] {
+    for p in [vec![Check], vec![Register, Check], vec![Check, Register, Check], vec![YieldOnce(true), Check], vec![YieldOnce(false), Check]] {
         for relaxed in [false, true] {
             for s1 in &hscripts {
                 out.push(FutSpec { poll: p.clone(), atomic_waker: false, wakers: vec![s1.clone()], prior: false, relaxed, handoff: true });
